@@ -309,11 +309,14 @@ class Splitter:
                 block_end_index = None
                 try:
                     # Start new block parsing
-                    if m_val.startswith("@comment"):
+                    # (the mark may end in blanks; an entry type may merely START with
+                    #   one of the reserved words, e.g. biblatex's `@commentary`)
+                    block_type = m_val[1:].strip()
+                    if block_type == "comment":
                         library.add(self._handle_explicit_comment())
-                    elif m_val.startswith("@preamble"):
+                    elif block_type == "preamble":
                         library.add(self._handle_preamble())
-                    elif m_val.startswith("@string"):
+                    elif block_type == "string":
                         library.add(self._handle_string(m))
                     else:
                         library.add(self._handle_entry(m, m_val))
